@@ -19,7 +19,8 @@ VERIF = os.path.dirname(os.path.dirname(os.path.abspath(__file__)))
 REPO = os.environ.get('VERIF_REPO', '/repo')
 SPEC = os.path.join(VERIF, 'spec')
 OUT = os.path.join(VERIF, 'out')           # run-time scratch that must survive the run (replay files); git-ignored
-EVID = os.path.join(VERIF, 'evidence')
+# evidence of runs against a scratch copy (mutant / seeded-change testing) must not overwrite the real evidence
+EVID = os.path.join(VERIF, 'evidence') if REPO == '/repo' else os.path.join(OUT, 'evidence_scratch')
 NCPU = min(16, os.cpu_count() or 4)
 TLA_CP = '/opt/veriftools/tla/tla2tools.jar:/opt/veriftools/tla/CommunityModules-deps.jar'
 
